@@ -66,10 +66,11 @@ const (
 	c06FTruncLast
 	c06FMalformed
 	c06FBlankLine // index responses only
+	c06F500Body   // status 500 with the otherwise intact, well-formed body
 	c06NFaults
 )
 
-var c06FaultNames = []string{"http500", "conn_error", "trunc_silent", "trunc_honest_length", "trunc_last_byte", "malformed", "interior_blank_line"}
+var c06FaultNames = []string{"http500", "conn_error", "trunc_silent", "trunc_honest_length", "trunc_last_byte", "malformed", "interior_blank_line", "http500_with_intact_body"}
 
 type c06Fault struct {
 	key  string
@@ -308,6 +309,8 @@ func (tr *c06WorldTransport) RoundTrip(req *http.Request) (*http.Response, error
 		return mk(status, []byte(s[:i]+";"+s[i+1:])), nil
 	case c06FBlankLine:
 		return mk(status, append([]byte("\n"), body...)), nil
+	case c06F500Body:
+		return mk(500, body), nil
 	}
 	return mk(status, body), nil
 }
